@@ -11,6 +11,10 @@ def run_check(tier, seed, replay=None):
     wd = workdir("c02")
     mc_predict(c, wd, tier)
     tlaps(c, "DiffProof", wd)
+    # the grammar catalogue (every production, every way it can fail, ill-formed look-alikes of
+    # tolerated forms) through both verify settings: nothing ill-formed is accepted and rebuilt differently
+    mc_deflate(c, wd)
+    replay_catalogue(c, wd, "C02")
     gen = gen_streams(wd, tier, seed + 3)
     res = replay_generated(c, wd, gen)
     n, acc = account(c, res, "C02", "generated")
